@@ -54,6 +54,30 @@ def check(ctx):
         ok = ok and cg.op == "ite" and A.C.canon(A.at(L, "self.grid")) in (cg.args[1], cg.args[2])
     ctx.ob("R09.4", fq, gen[0].node if gen else None, ok, "the grid is the supplied one, or generated from (grid_size, "
            "grid_limit, the constraints' bases, objective-in-span flag, grid_offset)", construct="grid source")
+    if gen:
+        cg = A.C.canon(grid)
+        is_none = A.C.canon(A.at(L, "self.grid is None"))
+        gen_grid = mk("attr", gen[0].data["result"], "grid")
+        okd = cg.op == "ite" and ((cg.args[0] is is_none and A.eq(cg.args[1], gen_grid) and A.eq(cg.args[2], A.at(L, "self.grid"))) or
+                                  (cg.args[0] is A.C._not(is_none) and A.eq(cg.args[2], gen_grid) and A.eq(cg.args[1], A.at(L, "self.grid"))))
+        ctx.ob("R09.4", fq, gen[0].node, okd, "a supplied grid is used as it is; the generator runs exactly when grid is None",
+               construct="grid dispatch")
+    # the moments are loaded with the caller's data before their bases / weights are read
+    loads = [e for e in r.events if e.kind == "call" and e.func == fq and e.data["fterm"].op == "attr" and e.data["fterm"].args[1] == "load_data"]
+    P = r.params
+
+    def _data_call(e):
+        return arg(e, 0, "X") is P["X"] and arg(e, 1, "y") is P["y"] and dict(e.data["kwargs"]).get("**") is P["kwargs"] and \
+            not [l for l in pc_literals(e.pc) if l.op != "inloop"]
+    cons = [e for e in loads if A.eq(e.data["fterm"].args[0], A.entry(r, "self.constraints"))]
+    okl = len(cons) == 1 and _data_call(cons[0]) and cons[0].seq < L.seq and (not gen or cons[0].seq < gen[0].seq)
+    ctx.ob("R09.1", fq, cons[0].node if cons else None, okl, "constraints.load_data(X, y, **kwargs) runs once, unconditionally, "
+           "before the grid is built", construct="constraints loaded")
+    objs = [e for e in loads if e not in cons]
+    okl = len(objs) == 1 and _data_call(objs[0]) and objs[0].seq < L.seq and cons and \
+        A.eq(objs[0].data["fterm"].args[0], A.at(objs[0], "self.constraints.default_objective()"))
+    ctx.ob("R09.1", fq, objs[0].node if objs else None, okl, "the default objective of the constraints is loaded with the same "
+           "data", construct="objective loaded")
     # R09.1
     fits = [e for e in body if e.kind == "call" and e.data["fterm"].op == "attr" and e.data["fterm"].args[1] == "fit"]
     sws = [e for e in body if e.kind == "call" and e.data["fterm"].op == "attr" and e.data["fterm"].args[1] == "signed_weights" and e.data["args"]]
@@ -212,6 +236,16 @@ def _generator(ctx):
     base = A2.C.canon(A2.entry(ra, "index == self.dim"))
     okb = len(apps) == 1 and [A2.C.canon(c) for c in apps[0].pc] == [base] and A2.eq(arg(apps[0], 0), A2.entry(ra, "self.entry.copy()")) \
         and not early and len(rec) == 1 and [A2.C.canon(c) for c in rec[0].pc if c.op != "inloop"] == [A2.C._not(base)]
+    if apps:
+        v = arg(apps[0], 0)
+        entry = A2.entry(ra, "self.entry")
+        is_copy = (v.op == "call" and v.args[0].op == "attr" and v.args[0].args[1] == "copy" and v.args[0].args[0] is entry) or \
+                  (v.op == "call" and v.args[0].op == "global" and v.args[0].args[0] in ("numpy.array", "numpy.copy", "builtins.list",
+                                                                                        "builtins.tuple", "copy.copy", "copy.deepcopy")
+                   and v.args[1] and v.args[1][0] is entry)
+        ctx.ob("R09.4", ra.func, apps[0].node, is_copy, "the recorded lattice point is a copy of the working vector" if is_copy else
+               "the working vector itself is recorded: it is overwritten by later recursion steps, so all recorded points alias one "
+               "array and the grid vectors are not distinct", construct="lattice point copied")
     ctx.ob("R09.4", ra.func, apps[0].node if apps else None, okb, "a lattice point is recorded exactly when all coordinates are "
            "set (index == dim), and otherwise every admissible value of the current coordinate is recursed into - no "
            "shortcut exits", construct="lattice recursion structure")
@@ -220,6 +254,13 @@ def _generator(ctx):
     ok = contains(vals, lambda s: s is free)
     ctx.ob("R09.4", ra.func, lev.node, ok, "a free coordinate ranges over [-max_val (if negatives are allowed) or 0, max_val]",
            construct="coordinate range")
+
+
+def _loop_init(v):
+    """value of a loop-carried variable on entry to the outermost loop that carries it"""
+    while v.op == "loopvar":
+        v = v.args[2]
+    return v
 
 
 def basis(ctx):
@@ -256,6 +297,24 @@ def basis(ctx):
             and len(incs[0].pc) == len([x for x in incs[0].pc if x.op == "inloop"])
         # groups: all but the last; events: the non-null events
         ok = ok and A.eq(li.data["iter"], A.at(li, "self.tags[_GROUP_ID].unique()[:-1]")) and A.eq(lo.data["iter"], A.at(lo, "self.tags[_EVENT].dropna().unique()"))
+    if ok:
+        b_ = {"pd": glob("pandas"), "E": lo.data["iter"], "G": A.at(lo, "self.tags[_GROUP_ID].unique()"), "I": A.at(lo, "self.index"),
+              "len": glob("builtins.len"), "range": glob("builtins.range")}
+        want = [A.spec(s_, b_) for s_ in ("pd.DataFrame(0.0, index=I, columns=range(len(E) * (len(G) - 1)))",
+                                          "pd.DataFrame(0.0, index=I, columns=range(len(E) * (len(G) - 1))).sort_index()")]
+        for nm in ("pos_basis", "neg_basis"):
+            sts_ = stores_attr(r, nm)
+            okf = len(sts_) == 1 and not sts_[0].loops and A.any_eq(sts_[0].data["value"], want)
+            ctx.ob("R09.6", fq, sts_[0].node if sts_ else None, okf, f"{nm} starts as the zero frame on the constraint index with one "
+                   "column per (event, non-final group)" if okf else f"{nm} does not start as zeros(index x #events*(#groups-1))",
+                   construct=f"{nm} initial frame")
+        for e_, sign in ((pe, "+"), (ne, "-")):
+            lits = [l for l in pc_literals(e_.pc) if l.op != "inloop"]
+            wantg = A.C.canon(A.spec("(sg, ev, g) in I", {"sg": const(sign), "ev": ev_, "g": g_, "I": b_["I"]}))
+            okg = len(lits) == 1 and A.C.canon(lits[0]) is wantg
+            ctx.ob("R09.6", fq, e_.node, okg, f"the '{sign}' entry is written exactly when ('{sign}', event, group) is a constraint",
+                   construct=f"basis guard {sign}")
+        ok = ok and counter.op == "loopvar" and _loop_init(counter) is const(0)
     ctx.ob("R09.6", fq, st[0].node if st else None, ok, "each basis column gets exactly one unit entry per sign, for the same "
            "(event, group) and column index; the counter advances once per pair" if ok else
            "the grid bases are not filled with one unit entry per (event, group, sign) and column", construct="UtilityParity bases")
@@ -268,6 +327,19 @@ def basis(ctx):
         lev = [x for x in r2.events if x.kind == "loop" and x.data.get("lid") == st2[0].loops[-1]][0]
         k = st2[0].data["key"]
         ok = k.op == "tuple" and k.args[0][0] is lev.data["elem"] and A.eq(lev.data["iter"], A.at(lev, "self.tags[_GROUP_ID].unique()"))
+    if ok:
+        cnt = k.args[0][1]
+        cols = [e for e in r2.events if e.kind == "store" and e.data.get("tkind") == "sub" and e.func == r2.func and e.loops == st2[0].loops
+                and e.data["key"] is cnt and e.seq < st2[0].seq]
+        zero = A.spec("pd.Series(0.0, I)", {"pd": glob("pandas"), "I": A.at(lev, "self.index")})
+        okz = len(cols) == 2 and all(A.eq(c.data["value"], zero) or A.eq(c.data["value"], A.spec("0 + z", {"z": zero})) for c in cols)
+        incs = [e for e in r2.events if e.kind == "store" and e.data.get("tkind") == "name" and e.loops == st2[0].loops and e.func == r2.func
+                and cnt.op == "loopvar" and e.data["name"] == cnt.args[0]]
+        okz = okz and cnt.op == "loopvar" and _loop_init(cnt) is const(0) and len(incs) == 1 and \
+            A.C._as_rat(A.C.canon(incs[0].data["value"])).equals(A.C._as_rat(A.C.canon(cnt)) + A.C._as_rat(const(1))) and \
+            not [l for l in pc_literals(incs[0].pc) if l.op != "inloop" and l not in pc_literals(lev.pc)]
+        ctx.ob("R09.6", r2.func, cols[0].node if cols else st2[0].node, okz, "column i of both bases starts as zeros on the group "
+               "index and the column counter runs 0, 1, 2, ... (one column per group)", construct="ConditionalLossMoment columns")
     ctx.ob("R09.6", r2.func, st2[0].node if st2 else None, ok, "one unit entry (group, i) per group column", construct="ConditionalLossMoment basis")
 
 
